@@ -302,6 +302,11 @@ class History:
         self.problems.append(d)
 
     def outside(self, what, si, n):
+        if self.stats.get("k2_selector_failures", 0) > 0:
+            # the selector's assertion left the tree's mutex poisoned: everything that locks it afterwards
+            # panics too — same K2 event
+            self.known.append(("K2", "an operation fails after the selector tripped over a mis-recovered tree"))
+            return
         self.stats["fault_free_failures_outside_c02"] = self.stats.get("fault_free_failures_outside_c02", 0) + 1
         self.outside_notes = getattr(self, "outside_notes", [])
         if len(self.outside_notes) < 2:
